@@ -57,11 +57,11 @@ func (g *c01Gen) lit() string {
 	return pick(g.r, []string{"", "_", "x", "ab ", "-.-", "\n", " z "})
 }
 
-const c01NSteps = 25
+const c01NSteps = 26
 const c01NSinks = 9
 
 var c01StepNames = []string{"let", "array-index", "hash-index", "userfn-identity", "gohelper-identity", "gohelper-typed", "concat-left", "concat-right",
-	"for-var", "if-block", "else-block", "helper-block", "contentFor-body", "contentOf-data", "partial-data", "partial-layout", "userfn-body", "userfn-param-body", "nested-array", "concat-with-trusted-right", "concat-with-trusted-left", "helper-with-HTML-parameter", "stored-into-[]template.HTML", "stored-into-map-of-template.HTML", "appended-to-[]template.HTML"}
+	"for-var", "if-block", "else-block", "helper-block", "contentFor-body", "contentOf-data", "partial-data", "partial-layout", "userfn-body", "userfn-param-body", "nested-array", "concat-with-trusted-right", "concat-with-trusted-left", "helper-with-HTML-parameter", "stored-into-[]template.HTML", "stored-into-map-of-template.HTML", "appended-to-[]template.HTML", "debug()"}
 var c01SinkNames = []string{"out", "if-return", "array-literal", "for-return", "hash-index-out", "let-then-out", "typed-strings-slice", "ifaces-slice", "for-over-typed-slice"}
 
 func (g *c01Gen) choose(n int) int {
@@ -218,6 +218,12 @@ func (g *c01Gen) route(d int, expr string, v c01Val) (string, []c01Seg) {
 			nv.loose = "\x00none\x00"
 		}
 		switch k {
+		case 25:
+			// a shipped helper that wraps its argument in markup of its own: the argument is data
+			dv := v
+			dv.trusted = true // what debug returns is typed as HTML; its content is judged by the model-free oracle
+			dv.loose = "<pre>\x01</pre>"
+			return g.route(d-1, "debug("+expr+")", dv)
 		case 22:
 			in, segs := g.route(d-1, "hsl[0]", nv)
 			return one("<% hsl[0] = "+expr+" %>", "", in, segs)
@@ -387,7 +393,7 @@ func c01Judge(b *core.B, src string, segs []c01Seg, res R, id string, sigPrefix 
 			if strings.Contains(res.Out, id) {
 				b.NonTrivialStr(src, id)
 			}
-			if why := c01ModelFree(res.Out, []string{s.val.loose}); why != "" {
+			if why := c01ModelFree(res.Out, strings.Split(s.val.loose, "\x01")); why != "" {
 				b.Violate(sigPrefix+"unescaped-output", why)
 			}
 			return
